@@ -357,10 +357,8 @@ class RefController:
 
     def version_query_expected(self, pred: Pred, outcome: str) -> bool:
         """After commit: is exactly one version query owed for this step?"""
-        if outcome == "invalid":
-            return False
         if pred.fields is None:
-            return False
+            return False  # the line was not decoded (a handler-level InvalidMessageError still counts as decoded)
         return self.version is None and not pred.version_exempt
 
     def commit(self, pred: Pred, outcome: str, observed: dict | None = None) -> None:
